@@ -27,8 +27,13 @@ def _init_worker(scratch, backend, verif_dir):
 
 def _run_task(modname, fn, args):
     try:
+        import time
+        t0 = time.process_time()
         mod = importlib.import_module(modname)
-        return ("ok", getattr(mod, fn)(*args))
+        res = getattr(mod, fn)(*args)
+        if isinstance(res, dict):
+            res.setdefault("cpu_s", round(time.process_time() - t0, 3))
+        return ("ok", res)
     except BaseException:  # harness trouble, reported as such
         return ("err", "%s.%s%r\n%s" % (modname, fn, tuple(args)[:3], traceback.format_exc()))
 
